@@ -16,6 +16,14 @@ Theorem torch_frames_eq_full :
 Proof. exact @torch_frames_eq_full_l. Qed.
 Print Assumptions torch_frames_eq_full.
 
+(* ... and for ANY positive frame shift (frame_shift > frame_length included, where the frame count
+   may round to zero although the signal is longer than a frame), unless the kaldi left pad is negative *)
+Theorem torch_frames_eq_full_any_shift :
+  forall (A : Type) (c : cfg) (x : list A), 0 < S c -> 0 < L c -> 0 <= pad_left c ->
+  torch_frames c x = full_frames c x.
+Proof. exact @torch_frames_eq_full_any_shift_l. Qed.
+Print Assumptions torch_frames_eq_full_any_shift.
+
 Theorem torch_pad_is_symmetric_pad :
   forall (A : Type) (x : list A) (pl pr : Z),
   1 <= len x -> 0 <= pl <= len x -> 0 <= pr -> torch_pad x pl pr = sympad x pl pr.
